@@ -42,6 +42,7 @@ type GenCfg struct {
 	Visited                                                                                    bool   // visited()/visited_count() in expressions
 	MoreBuiltins                                                                               int    // added to the percentages with which built-ins (and round_places among them) are drawn
 	ArgExprPct                                                                                 int    // chance that a command argument is an {expression} (default 35)
+	StopArgs                                                                                   bool   // model-free C12 worlds: <<stop now>>, <<stop {1 + 1}>>
 	NoLongLines                                                                                bool   // C05/C20: every base script is loaded hundreds of times - long lines come as stream cases there
 	HostFnWrites                                                                               bool   // <<call pw("n0", e)>>: a host function that writes a variable while the script runs
 	BigRoundsPct                                                                               int    // share of hub worlds whose loop runs 126-300 rounds
@@ -281,7 +282,12 @@ func (g *gen) stmt(depth int) *Stmt {
 	case 6:
 		return g.jumpE()
 	case 7:
-		return &Stmt{K: sStop}
+		st := &Stmt{K: sStop}
+		if g.cfg.StopArgs && g.tp.Chance(35, "stopargs") {
+			// a stop spelled with arguments: whatever a runner makes of it, an end it reports is final (C12 only)
+			st.Spell = g.tp.Int(1, 3, "stopspell")
+		}
+		return st
 	case 8:
 		return g.callStmt()
 	case 9:
